@@ -366,6 +366,63 @@ def _judge(res, case, si, impl):
         res.violations.append(C.Violation(f"{case['wrapper']}-{sig}", text, dict(one, trace=impl["itrace"][si], log=impl["log"][si])))
 
 
+def api_probes():
+    """Implementation-only probes of the wrappers' documented argument forms (NOT in the Lean phase machine, whose pieces
+    are generators): for finalize_wrapper (documented: `final_plan : callable, iterable or iterator`; contingency_wrapper documents
+    generator functions only and is not probed) the cleanup given as a list / tuple / iterator / callable returning a list must behave exactly like a
+    generator function (with NON-None responses sent to the cleanup's messages), and a decorated plan can be called
+    any number of times, its cleanup running every time."""
+    from bluesky.preprocessors import finalize_decorator, finalize_wrapper
+    from bluesky.utils import Msg
+
+    def drive(g, throw_at=None):
+        out = []
+        try:
+            m = next(g)
+            i = 0
+            while True:
+                out.append(m.command)
+                if throw_at == i:
+                    m = g.throw(KeyError("thrown"))
+                else:
+                    m = g.send(("resp", i))
+                i += 1
+        except StopIteration as e:
+            out.append(["ret", e.value])
+        except Exception as e:  # noqa
+            out.append(["exc", type(e).__name__])
+        return out
+
+    def body():
+        yield Msg("b1")
+        yield Msg("b2")
+        return "ret"
+
+    def body_raises():
+        yield Msg("b1")
+        raise ValueError("x")
+
+    def cleanup():
+        yield Msg("c1")
+        yield Msg("c2")
+
+    msgs = lambda: [Msg("c1"), Msg("c2")]  # noqa: E731
+    forms = {"list": lambda: msgs(), "tuple": lambda: tuple(msgs()), "iterator": lambda: iter(msgs()), "callable-returning-list": lambda: msgs, "callable-returning-iterator": lambda: (lambda: iter(msgs()))}
+    bad = []
+    for bname, b in (("returns", body), ("raises", body_raises)):
+        for throw_at in (None, 0, 1):
+            ref = drive(finalize_wrapper(b(), cleanup), throw_at)
+            for fname, form in forms.items():
+                got = drive(finalize_wrapper(b(), form()), throw_at)
+                if got != ref:
+                    bad.append((f"finalize_wrapper:cleanup-given-as-{fname}-differs", f"body {bname}, throw at {throw_at}: with a generator function {ref}, with the same cleanup as {fname} {got}", {"probe": "api", "form": fname, "body": bname, "throw_at": throw_at}))
+            deco = finalize_decorator(cleanup)(b)
+            runs = [drive(deco(), throw_at) for _ in range(3)]
+            if any(r != ref for r in runs):
+                bad.append(("finalize_decorator:cleanup-not-run-on-every-call", f"body {bname}, throw at {throw_at}: three calls of one decorated plan gave {runs}, expected {ref} each time", {"probe": "api", "form": "decorator-reuse", "body": bname, "throw_at": throw_at}))
+    return bad
+
+
 def run(ctx, model=True):
     G.quiet_unraisable()
     res = C.Result()
@@ -409,6 +466,10 @@ def run(ctx, model=True):
                 if len(res.samples) < 3 and label == "random" and len(ev) >= 3:
                     res.samples.append({"case": one, "impl": {"trace": impl[ci]["trace"][si], "log": ev}, "model": {"trace": lean[ci]["traces"][si], "log": lean[ci]["logs"][si]}})
     res.exhaustive = True
+    for sig, what, case in api_probes():
+        res.violations.append(C.Violation(sig, "implementation-only probe: " + what, case))
+    res.count("impl-only-probe:argument-forms-and-decorator-reuse", 1)
+    res.notes.append("cleanup given as list / tuple / iterator / callable returning a list, and repeated calls of a decorated plan, are probed on the implementation only")
     return res
 
 
@@ -420,6 +481,10 @@ def replay(ctx, data):
     G.quiet_unraisable()
     res = C.Result()
     case = dict(data["case"])
+    if case.get("probe") == "api":
+        for sig, what, c in api_probes():
+            res.violations.append(C.Violation(sig, what, c))
+        return res
     if "plan" not in case:
         return res
     case["scripts"] = [case.pop("script")]
